@@ -97,12 +97,27 @@ def _window_case(rng):
     return {"kind": "history", "sup": True, "hist": hist}
 
 
+def _bits_case(rng):
+    """one bit-field key driven with one field width: increments / decrements of several fields, then reads of those and neighbouring fields"""
+    size = rng.choice([2, 3, 4, 2, 4, 1])
+    hist = []
+    for _ in range(rng.randint(3, 9)):
+        idx = [rng.randint(0, 6) for _ in range(rng.randint(1, 3))]
+        if rng.random() < 0.55:
+            hist.append([rng.choice([0, 0, 1]), False, ["incr_bits", "ba", size, idx, rng.choice([1, 1, 2, 3, 7, -1, -2])]])
+        else:
+            hist.append([rng.choice([0, 0, 1]), False, ["get_bits", "ba", size, sorted(set(idx + [max(0, idx[0] - 1), idx[0] + 1]))]])
+    hist.append([0, False, ["get_bits", "ba", size, list(range(8))]])
+    return {"kind": "history", "sup": True, "hist": hist}
+
+
 DECORATORS = ["cache", "cache_lock", "early", "soft", "hit", "failover", "locked", "locked_nowait", "rate_limit", "slice_rate_limit", "circuit_breaker", "bloom", "dual_bloom", "iterator"]
 
 
 def gen_cases(rng, tier):
     n = 500 if tier == "quick" else 6000
     cases = [_rand_case(rng) for _ in range(n)] + [_window_case(rng) for _ in range(n // 10)]
+    cases += [_bits_case(rng) for _ in range(n // 12)]
     for d in DECORATORS:
         for down_from in (0, 1, 2):
             cases.append({"kind": "decor", "decorator": d, "down_from": down_from, "calls": 4})
